@@ -269,7 +269,10 @@ fn hash_checks(g: &mut Gen, out: &mut Out, n_tx: usize, n_blk: usize) {
     for i in 0..n_blk {
         g.reset(30);
         let with_ext = i % 2 == 1;
-        let block: packed::Block = if with_ext {
+        let block: packed::Block = if with_ext && i % 8 == 1 {
+            // a present but empty extension field
+            gen_schema::gen_BlockV1(g).as_builder().extension(packed::Bytes::default()).build().as_v0()
+        } else if with_ext {
             gen_schema::gen_BlockV1(g).as_v0()
         } else {
             gen_schema::gen_Block(g)
@@ -327,6 +330,18 @@ fn hash_checks(g: &mut Gen, out: &mut Out, n_tx: usize, n_blk: usize) {
             }
             if v2.data().transactions().as_slice() != block.transactions().as_slice() || v2.data().uncles().as_slice() != block.uncles().as_slice() {
                 bad.push("into_view changed the body".into());
+            }
+            // the advanced builder (BlockBuilder::build resets the header) must commit to the same content
+            let v3 = view.as_advanced_builder().build();
+            let raw3 = v3.data().header().raw();
+            if h32(&raw3.transactions_root()) != want_root || h32(&raw3.proposals_hash()) != want_prop || h32(&raw3.extra_hash()) != want_extra {
+                bad.push("advanced BlockBuilder::build header commitments".into());
+            }
+            if v3.extension().map(|e| e.raw_data()) != ext.as_ref().map(|e| e.raw_data()) || v3.data().transactions().as_slice() != block.transactions().as_slice() {
+                bad.push("advanced BlockBuilder::build changed the body".into());
+            }
+            if h32(&v3.extra_hash()) != h32(&v3.calc_extra_hash().extra_hash()) || v3.hash() != v2.hash() {
+                bad.push("advanced BlockBuilder::build and into_view disagree on the block hash / extra hash".into());
             }
             (bad, want_root, want_prop, want_extra)
         }));
